@@ -644,3 +644,11 @@ package lua
 //@ assert@"return opRkAsk(cindex)" opIsK(opRkAsk(cindex)) && opIndexK(opRkAsk(cindex)) == cindex
 //@ ensures  !opIsK(result) ==> result == old(deref(reg))
 //@ modifies context.Proto.Constants, context.Proto.Constants[*], context.Code.codes, context.Code.lines, context.Code.pc, context.Code.codes[*], context.Code.lines[*], *reg
+
+// allocator.LNumber2I builds the interface value of a number through unsafe pointers into a pooled float array.
+// Its specification "the result is the number v" is ASSUMED (unsafe code is outside the subset); that two live values
+// never share a cell ("number boxing without aliasing", C01) is NOT verified.
+//@ trusted (*allocator).LNumber2I [C01]
+//@ noraise
+//@ ensures  same(result, mkNum(v))
+//@ modifies type allocator.*, type iface.*, elems(float64)
